@@ -151,7 +151,7 @@ func (g *c14Toml) scalar() *ref.TVal {
 			}
 		case 4:
 			if g.feat == TFBinaryInt && !g.done && n >= 0 {
-				lit = "0b" + strconv.FormatInt(n, 2)
+				lit = "0b" + under(strconv.FormatInt(n, 2), r)
 				g.done = true
 			}
 		}
